@@ -579,6 +579,52 @@ def space_case(rng, recipe, op, poison=False):
     return term, desc, key, carrier, tol
 
 
+BK = {'add': 'BAdd', 'sub': 'BSub', 'mul': 'BMul', 'truediv': 'BDiv',
+      'radd': 'BRAdd', 'rsub': 'BRSub', 'rmul': 'BRMul', 'rtruediv': 'BRDiv'}
+
+
+def bcast_case(rng, child, n, k, inplace, poison=False):
+    """Power-space broadcasting  x <op> y0  with y0 in space[0] (pspace._broadcast_arithmetic)."""
+    recipe = ('P', [child] * n)
+    leaves = leaf_recipes(recipe)
+    bases = set(DT[l[1]][0] for l in leaves)
+    cxs = 'cx' in bases
+    carrier = ('cxnan' if cxs else 'nan') if poison else ('cx' if cxs else 'real')
+    tol = max(max(DT[l[1]][3] for l in leaves), Fraction(1, 10 ** 9))
+    ctx = Ctx(poison)
+    divk = 'div' if k in ('truediv', 'rtruediv') else 'any'
+    x = mk_element(rng, recipe, 'div' if k == 'rtruediv' else 'any')
+    y0 = mk_element(rng, child, 'div' if k == 'truediv' else 'any')
+    tparts = ctx.terms(x.parts)
+    ty = ctx.term(y0)
+    with np.errstate(all='ignore'):
+        if inplace:
+            res = getattr(x, '__i%s__' % k)(y0)
+        elif k.startswith('r'):
+            import operator
+            f = {'radd': operator.add, 'rsub': operator.sub, 'rmul': operator.mul, 'rtruediv': operator.truediv}[k]
+            # `y0 + x` with y0 itself a product element never reaches x.__radd__ (same Python type):
+            # call the reflected method directly in that case
+            res = getattr(x, '__%s__' % k)(y0) if child[0] == 'P' else f(y0, x)
+        else:
+            res = getattr(x, '__%s__' % k)(y0)
+    ttmps = 'ENil' if inplace else ctx.terms(res.parts, True)
+    if inplace:
+        assert all(a is b for a, b in zip(leaf_tensors(res), leaf_tensors(x)))
+    real_ids = [j for j, o in enumerate(ctx.objs) if o is not None]
+    final = [(np.asarray(o.data) if o is not None else ctx.init[j]) for j, o in enumerate(ctx.objs)]
+    term = ('mkW %s %s %s (WBcast %s %s %s %s %s %s) [%s] %s [%s] 0'
+            % (coq_space(recipe), '[' + '; '.join(C.b(v) for v in ctx.bdt) + ']',
+               '[' + '; '.join('(%s, %s)' % (C.b(cf), C.b(ff)) for cf, ff in ctx.flags) + ']',
+               C.b(inplace), BK[k], coq_space(child), tparts, ty, ttmps,
+               '; '.join(compress(carrier, a) for a in ctx.init),
+               '[' + '; '.join('%d' % j for j in real_ids) + ']%nat',
+               '; '.join(compress(carrier, a) for a in final)))
+    desc = {'op': 'bcast_' + ('i' if inplace else '') + k, 'space': repr(recipe), 'poison': poison,
+            'shape': [max(int(np.prod(l[2])) for l in leaves)]}
+    return term, desc, ('bcast', k, inplace, repr(child), n, poison), carrier, tol
+
+
 OPS = ['lincomb2', 'lincomb1', 'multiply', 'divide', 'assign', 'set_zero', 'copy',
        'iadd', 'isub', 'imul', 'itruediv', 'add', 'sub', 'mul', 'truediv', 'rsub', 'rtruediv',
        'iadd_s', 'isub_s', 'imul_s', 'itruediv_s', 'add_s', 'radd_s', 'sub_s', 'rsub_s', 'mul_s', 'rmul_s',
@@ -624,6 +670,16 @@ def space_cases(rng, tier, S):
         if 'int' not in bases:
             for op in (OPS if not quick else rng.sample(OPS, 12)):
                 S.put('sp', 'x', space_case(rng, r, op, poison=True), CHECKW, 'caseW %s')
+    # power-space broadcasting
+    children = [('T', 'float64', (3,)), ('D', 'float64', (2, 3)), ('T', 'complex128', (2,)), ('T', 'float64', (100,)),
+                ('P', [('T', 'float64', (2,)), ('D', 'float64', (3,))])]
+    for child in children:
+        for n in ([1, 3] if quick else [1, 2, 3, 4]):
+            for k in BK:
+                S.put('sp', 'x', bcast_case(rng, child, n, k, False), CHECKW, 'caseW %s')
+                if not k.startswith('r'):
+                    S.put('sp', 'x', bcast_case(rng, child, n, k, True), CHECKW, 'caseW %s')
+            S.put('sp', 'x', bcast_case(rng, child, n, rng.choice(sorted(BK)), False, poison=True), CHECKW, 'caseW %s')
     # a few large leaves (BLAS regime through the public API)
     for r in [('D', 'float64', (50000,)), ('P', [('T', 'float64', (50001,)), ('T', 'float64', (3,))])]:
         for op in (['lincomb2', 'iadd', 'add_s', 'rsub_s', 'imul_s', 'assign'] if quick else OPS):
